@@ -23,8 +23,14 @@ Unseeded witnesses cannot be replayed value-for-value (OS entropy); the witness 
 
 Calibration
 * choice(replace=False) with a multi-chunk output is documented as unsupported (NotImplementedError):
-  counted as ``unsupported``; kept in the stream (~1 choice case in 6) so that an implementation that
-  samples per chunk would be caught by the distinctness check.
+  counted as ``unsupported``; kept in the stream (~1 choice case in 5, split along any one axis) so that
+  an implementation that samples per chunk is caught by the distinctness check.
+* permutation(x) is x[index] with an index drawn on the host: its name is a function of (x, index), so two
+  unseeded permutations share a name exactly when they drew the same index (certain for len(x) <= 1); the
+  distinct-name demand is therefore not applied to permutation, only "computed together == alone".
+* Labels: the module-level functions are methods of one cached RandomState and are labelled RandomState; with
+  disjoint graphs a "together != alone" difference can only be a draw that is not baked into the graph and is
+  labelled as the recompute mechanism.
 * Generator objects are stateful: calling one generator twice gives two different arrays by design, so
   "same seed" always means a fresh generator object.
 """
@@ -45,11 +51,17 @@ RULE = ("cases = seeded (API Generator|RandomState|module, distribution of 13, p
         "(population int|numpy|dask, size int|tuple up to and beyond the population, p, chunks). non-trivial = the array has "
         ">= 2 chunks (seeded/unseeded/permutation) or the sample has >= 2 elements (choice); distinct = distinct case "
         "description including the seed.")
-ASSUMPTIONS = ["numpy.random defines the per-chunk draws", "spawn process pool of 2 workers reused within a shard",
+ASSUMPTIONS = ["numpy.random defines the per-chunk draws", "spawn process pool (1 worker) reused within a shard",
                "unseeded generators draw OS entropy: their witnesses are not replayable value-for-value"]
-BUDGET = {"quick": 60, "thorough": 540}
-FLOORS = {"quick": {"evaluations": 1, "distinct_nontrivial": 1, "counters": {"seeded_compared": 1}, "max_skipped_fraction": 0.3},
-          "thorough": {"evaluations": 1, "distinct_nontrivial": 1, "counters": {"seeded_compared": 1}, "max_skipped_fraction": 0.3}}
+BUDGET = {"quick": 90, "thorough": 560}
+FLOORS = {"quick": {"evaluations": 1000, "distinct_nontrivial": 480,
+                    "counters": {"seeded_compared": 500, "seeded_processes": 30, "seeded_threads": 450, "unseeded_pairs": 260,
+                                 "together_vs_alone": 500, "own_draw_checked": 60, "choice_checked": 150, "permutation_checked": 65},
+                    "sets": {"seeded_api_dist": 30, "unseeded_mode_dist": 45}, "max_skipped_fraction": 0.15},
+          "thorough": {"evaluations": 10000, "distinct_nontrivial": 4800,
+                       "counters": {"seeded_compared": 5000, "seeded_processes": 300, "seeded_threads": 4500, "unseeded_pairs": 2600,
+                                    "together_vs_alone": 5000, "own_draw_checked": 600, "choice_checked": 1500, "permutation_checked": 650},
+                       "sets": {"seeded_api_dist": 36, "unseeded_mode_dist": 60}, "max_skipped_fraction": 0.15}}
 EXHAUSTIVE_SPACE = None
 CLAIM = ("Every generated seeded array was rebuilt from a fresh generator and computed three times (sync twice, then threads "
          "or a process pool) with identical results; every generated pair of unseeded arrays had distinct names/keys and kept "
@@ -58,7 +70,21 @@ CLAIM = ("Every generated seeded array was rebuilt from a fresh generator and co
 LEVEL_NOTE = "trusts numpy.random bit generators; schedulers are the real sync/threads/multiprocessing ones"
 TECHNIQUE = "runtime monitoring: recomputation/scheduler differential, key-distinctness and sample-distinctness monitors"
 CASE_TIMEOUT = 90
-PENDING = {}
+PENDING = {
+    "recompute:Generator:choice:values":
+        "Generator.choice puts live BitGenerator objects into the graph; every in-process compute advances them, so the same "
+        "array computes to different values each time (sync/threads), also when computed together with another array",
+    "choice-noreplace:size=None:IndexError@array/random.py:_choice_validate_params":
+        "choice(a, replace=False) with the default size=None (0-d result) raises IndexError: chunks[0] of an empty chunks tuple",
+    "choice-noreplace:Generator:split-later-axis:duplicates":
+        "Generator.choice(replace=False) only refuses outputs split along axis 0; an output split along a later axis "
+        "(size=(2, 3), chunks=(2, 1)) is sampled per chunk and contains duplicates",
+    "choice-noreplace:RandomState:split-later-axis:duplicates":
+        "same guard (shared _choice_validate_params) reached through RandomState.choice / da.random.choice",
+    "wrap:zero-size-array-param:IndexError":
+        "any distribution with an array-valued parameter of size 0 (e.g. normal(loc=np.empty((0, 3)), size=(0, 3))) raises "
+        "IndexError in _wrap_func (element 0 of the parameter is taken for meta inference); NumPy returns an empty array",
+}
 
 # (Generator method, RandomState method, parameter names, continuous?)
 DISTS = {
@@ -123,7 +149,7 @@ def _chunks_arg(d):
 
 def cases(tier, seed):
     rng = random.Random(seed * 6151 + 28)
-    n = 2400 if tier == "quick" else 36000
+    n = 2400 if tier == "quick" else 24000
     for i in range(n):
         u = rng.random()
         if u < 0.5:
@@ -178,11 +204,11 @@ def cases(tier, seed):
             form = "int" if len(size) == 1 and rng.random() < 0.5 else "tuple"
             if rng.random() < 0.05:
                 size, form = [], "none"
-            multi = rng.random() < 1 / 6 and size and size[0] >= 2
-            if multi:
-                ch = [list(A.rand_comp(rng, size[0], flavour=rng.choice(("two", "ones", "irregular"))))] + [[s] for s in size[1:]]
-            else:
-                ch = [[s] for s in size]
+            ch = [[s] for s in size]
+            splittable = [ax for ax, s in enumerate(size) if s >= 2]
+            if rng.random() < (0.5 if len(size) > 1 else 0.2) and splittable:
+                ax = rng.choice(splittable)
+                ch[ax] = list(A.rand_comp(rng, size[ax], flavour=rng.choice(("two", "ones", "irregular"))))
             yield {"k": "choice", "api": rng.choice(("gen", "gen", "rs", "mod")), "pop": pop, "size": size, "form": form,
                    "p": rng.random() < 0.4, "pseed": rng.randrange(2 ** 16), "c": ch, "cform": rng.choice(("explicit", "explicit", "auto", "-1")),
                    "seed": rng.choice((None, 0, rng.randrange(2 ** 32))), "shuffle": rng.random() < 0.8,
@@ -220,7 +246,7 @@ def _proc_pool():
         import multiprocessing
         from concurrent.futures import ProcessPoolExecutor
 
-        _POOL["p"] = ProcessPoolExecutor(2, mp_context=multiprocessing.get_context("spawn"))
+        _POOL["p"] = ProcessPoolExecutor(1, mp_context=multiprocessing.get_context("spawn"))
     return _POOL["p"]
 
 
@@ -333,7 +359,8 @@ def _family(dist):
 
 
 def _apiname(api):
-    return {"gen": "Generator", "rs": "RandomState", "mod": "module"}[api]
+    # the module-level functions are methods of one cached RandomState: same code path, same label (mode is in the detail)
+    return {"gen": "Generator", "rs": "RandomState", "mod": "RandomState"}[api]
 
 
 def _top_keys(a):
@@ -363,7 +390,7 @@ def run_case(case, ctx):
 def _run_seeded(case, ctx):
     api, dist = case["api"], case["dist"]
     ctx.op("seeded:%s.%s" % (_apiname(api), dist))
-    pre = "seeded:%s:%s" % (_apiname(api), _family(dist)) + (":array-param" if case.get("arr") else "")
+    pre = "seeded:%s:%s" % (_apiname(api), _family(dist))
     try:
         a1 = _draw(_generator(api, case["seed"]), api, case)
         a2 = _draw(_generator(api, case["seed"]), api, case)
@@ -390,7 +417,8 @@ def _run_seeded(case, ctx):
         ctx.violation("recompute:%s:%s:%s" % (_apiname(api), _family(dist), m[0]), m[1], name=a1.name, seeded=True)
     m = compare_arrays(v2, v1, exact=True)
     if m:
-        ctx.violation("%s:rebuilt-on-%s:%s" % (pre, case["sched"], m[0]), m[1], names=[a1.name, a2.name])
+        ctx.violation("%s:rebuilt:%s" % (pre, m[0]), m[1], names=[a1.name, a2.name], scheduler=case["sched"],
+                      array_param=bool(case.get("arr")))
     if tuple(np.shape(v1)) != tuple(a1.shape):
         ctx.violation("%s:lazy-shape" % pre, "computed shape %s, lazy %s" % (np.shape(v1), a1.shape))
     if a1.name == a2.name:
@@ -422,7 +450,9 @@ def _run_unseeded(case, ctx):
     # unseeded permutations share a name exactly when they drew the same index (certain for len(x) <= 1)
     named = dist != "permutation"
     if named and a.name == b.name:
+        # shared keys and mixed-up results when computed together follow from the shared name: one label
         ctx.violation(pre + ":same-name", "both arrays are named %s" % a.name, mode=mode, dist=dist)
+        return
     shared = _top_keys(a) & _top_keys(b) if named else ()
     if shared:
         ctx.violation(pre + ":shared-keys", "%d top-level keys shared, e.g. %r" % (len(shared), sorted(map(str, shared))[:2]),
@@ -467,8 +497,9 @@ def _run_choice(case, ctx):
     n_pop = pop["n"]
     want = int(np.prod(size)) if size else 1
     ctx.op("choice-noreplace:%s" % _apiname(api))
-    multi = len(case["c"]) > 0 and len(case["c"][0]) > 1
-    pre = "choice-noreplace:%s:%s" % (_apiname(api), "multi-chunk" if multi else "single-chunk")
+    multi = any(len(c) > 1 for c in case["c"])
+    split = "single-chunk" if not multi else ("split-axis0" if len(case["c"][0]) > 1 else "split-later-axis")
+    pre = "choice-noreplace:%s:%s" % (_apiname(api), split)
     a, members = _pop_value(pop)
     p = _p_vector(n_pop, case["pseed"], min(want, n_pop)) if case["p"] else None
     size_arg = None if case["form"] == "none" else (size[0] if case["form"] == "int" else size)
